@@ -342,6 +342,10 @@ package drpcstream
 //@   ghost entry wrote = false
 //@   ghost after:(*Stream).rawWriteLocked wrote = ret == nil
 //@   site (*Stream).rawWriteLocked assert [C01.kind] arg1 == drpcwire.KindMessage && held(s.write.Mutex)
+//@   ghost entry marshalled = nil
+//@   ghost after:MarshalAppend marshalled = ret0
+//@   site (*Stream).rawWriteLocked assert [C01.sends-what-was-marshalled] arg2 == marshalled && eventCount("call:MarshalAppend") == 1
+//@   site MarshalAppend assert [C01.marshals-the-message] arg0 == msg && arg1 == enc
 //@   check [C01.flush-after-send] err == nil && !s.opts.ManualFlush ==> wrote && flushed
 //@   check [C03,C05.finished-check] eventAfterLast("unlock:storj.io/drpc/drpcstream.Stream.write", "call:(*Stream).checkFinished")
 
